@@ -10,7 +10,7 @@ import (
 	"verif/pbt"
 )
 
-var nameAlphabet = []string{"A", "B", "a_b", "A_B", "Ab", "get_item", "listItems", "Sync_All", "X1", "x2y", "Do_It2", "do_it", "Svc", "my_svc", "M", "Put_Batch", "a1_b2", "S", "Stream", "Client", "Server"}
+var nameAlphabet = []string{"A", "B", "a_b", "A_B", "Ab", "get_item", "listItems", "Sync_All", "X1", "x2y", "Do_It2", "do_it", "Svc", "my_svc", "M", "Put_Batch", "a1_b2", "S", "Stream", "Client", "Server", "DRPCConn", "SvcUnimplemented"}
 
 func genSpec(t *rapid.T) FileSpec {
 	f := FileSpec{
